@@ -122,6 +122,12 @@ def build(case):
         d0 = dims[0]
         xv = np.array([[xs[j] + 0.125 * i for j in range(nx)]
                        for i in range(sizes[d0])])
+        if case.get("x_nan"):
+            # x itself is undefined at some points (where y may be known)
+            rx_ = random.Random(case["seed"] + 9)
+            mx_ = np.array([rx_.random() < 0.25 for _ in range(xv.size)]
+                           ).reshape(xv.shape)
+            xv = np.where(mx_, np.nan, xv)
         dv["xv"] = ((d0, xname), xv)
     return xr.Dataset(dv, coords=coords)
 
@@ -293,10 +299,14 @@ def check_lines(x, case, ds):
                 continue
         else:
             xrow = xs
-        if not np.any(~np.isnan(ys)):
+        # a point is a point where both x and y are known
+        valid = ~np.isnan(ys)
+        if case.get("x_is_var"):
+            valid = valid & ~np.isnan(xrow)
+        if not np.any(valid):
             continue
         if case.get("join"):
-            keep = ~np.isnan(ys)
+            keep = valid
             expected.append((loc, xrow[keep], ys[keep]))
         else:
             expected.append((loc, xrow, ys))
@@ -656,6 +666,7 @@ def strategy(draw):
     case["palette"] = draw(st.sampled_from([None, None, "viridis"]))
     case["x_is_var"] = draw(st.sampled_from([False, False, False, True])) \
         and case["rest"] == "iterate"
+    case["x_nan"] = bool(case["x_is_var"]) and draw(st.booleans())
     if case["rest"] == "iterate":
         case["p_inf"] = draw(st.sampled_from([0.0, 0.0, 0.2]))
     case["err_var"] = case["rest"] == "iterate" and \
